@@ -122,8 +122,7 @@ struct SlipHarness : Harness {
             Json f = Json::obj();
             f["where"] = (long long)r.below(4);  // 0 enc source, 1 enc sink, 2 dec source, 3 dec sink
             f["pos"] = (long long)r.range(0, 2 * maxlen + 3 > 24 ? 24 : 2 * maxlen + 3);
-            static const int CODES[] = {EIO, EPIPE, ENOMEM, ECONNRESET, ENOSPC, EBADF};
-            f["code"] = CODES[r.below(6)];
+            f["code"] = HARD_ERRORS[r.below(N_HARD_ERRORS)];
             if (f.geti("where") == 2 && r.chance(1, 2)) {  // the line fails or runs dry exactly between two frames, and is read again afterwards
                 size_t b = 0; int upto = (int)r.below((uint64_t)k);
                 for (int i = 0; i < upto; ++i) b += ref_encode(unhex(frames.at((size_t)i).s), sof).size();
